@@ -89,7 +89,12 @@ def main():
     if args:
         names = [n for n in names if any(n.startswith(a) for a in args)]
     rpath = os.path.join(SEEDED, 'RESULTS.json')
-    allres = json.load(open(rpath)) if os.path.exists(rpath) else {}
+    def load():
+        try:
+            return json.load(open(rpath)) if os.path.exists(rpath) else {}
+        except ValueError:
+            return {}
+    allres = load()
     for n in names:
         r = evaluate(n, '--thorough' in sys.argv, seed)
         allres[n] = r
@@ -97,7 +102,10 @@ def main():
         print(f"{n:12s} demo clean={r.get('demo_on_clean')} patched={r.get('demo_with_patch')} baseline={'ok' if r.get('baseline_passes') else 'BROKEN'} "
               + ''.join(f" [{k[5:]}: {v['verdict']}]" for k, v in r.items() if k.startswith('also_')) +
               f" check={last.get('verdict')} ({'thorough' if r.get('thorough') else 'quick'}, {last.get('wall_s')}s) {'; '.join(last.get('keys', []))[:160]}", flush=True)
-        json.dump(allres, open(rpath, 'w'), indent=1, sort_keys=True)
+        allres = dict(load(), **{n: r})          # other evaluations may be running at the same time: merge, write atomically
+        tmp = '%s.%d.tmp' % (rpath, os.getpid())
+        json.dump(allres, open(tmp, 'w'), indent=1, sort_keys=True)
+        os.replace(tmp, rpath)
     return 0
 
 
